@@ -112,6 +112,45 @@ def postpass (L : Lang) (src : List Nat) : List Tok → List Tok
     else
       t :: postpass L src rest
 
+/-! The same function as the iterator it is in the Rust code (`Lemmas.lexDrain_eq` proves the two
+forms equal; the driver runs this one). -/
+/-- `Lexer { inner, pending }`: `raw` is what logos has not yielded yet, `pending` the `VecDeque`. -/
+structure LexSt where
+  pending : List Tok
+  raw : List Tok
+deriving Repr
+
+/-- `<Lexer as Iterator>::next`, statement by statement. -/
+def lexNext (L : Lang) (src : List Nat) (s : LexSt) : Option (Tok × LexSt) :=
+  match s.pending with
+  | p :: ps => some (p, { s with pending := ps })
+  | [] =>
+    match s.raw with
+    | [] => none
+    | t :: rest =>
+      if t.kind = L.int ∧ endsWithDot src t = true ∧ t.hi > t.lo + 1 then
+        let intTok : Tok := ⟨L.int, t.lo, t.hi - 1⟩
+        match rest with
+        | [] => some (intTok, ⟨[⟨L.dot, t.hi - 1, t.hi⟩], []⟩)
+        | nx :: rest' =>
+          if nx.kind = L.dot ∧ nx.lo = t.hi then
+            some (intTok, ⟨[⟨L.dotDot, t.hi - 1, nx.hi⟩], rest'⟩)
+          else
+            some (intTok, ⟨[⟨L.dot, t.hi - 1, t.hi⟩, nx], rest'⟩)
+      else some (t, ⟨[], rest⟩)
+
+/-- `Lexer::new(source).collect()` with an explicit bound on the number of `next` calls. -/
+def lexDrain (L : Lang) (src : List Nat) : Nat → LexSt → List Tok
+  | 0, _ => []
+  | f + 1, s =>
+    match lexNext L src s with
+    | none => []
+    | some (t, s') => t :: lexDrain L src f s'
+
+/-- `lex(source)`: at most two tokens come out per raw token, so `2 * raw.length` calls drain it. -/
+def lexAll (L : Lang) (src : List Nat) (raw : List Tok) : List Tok :=
+  lexDrain L src (2 * raw.length) ⟨[], raw⟩
+
 /-! ## Events (`parser/event.rs`) -/
 
 inductive Event where
@@ -155,6 +194,16 @@ def Tree.text : Tree → List Nat
 def textList : List Tree → List Nat
   | [] => []
   | c :: cs => c.text ++ textList cs
+end
+
+mutual
+/-- The leaf tokens of a green element in document order: (kind, text). -/
+def Tree.leaves : Tree → List (Nat × List Nat)
+  | .token k s => [(k, s)]
+  | .node _ cs => leavesList cs
+def leavesList : List Tree → List (Nat × List Nat)
+  | [] => []
+  | c :: cs => c.leaves ++ leavesList cs
 end
 
 /-- `GreenNodeBuilder { parents: Vec<(SyntaxKind, usize)>, children: Vec<GreenElement> }`
@@ -312,6 +361,19 @@ def stepCursor (L : Lang) (ts : List Tok) : Event → List Tok
 /-- E3: replaying only the cursor over all events consumes every token. -/
 def consumesAll (L : Lang) (toks : List Tok) (events : List Event) : Bool :=
   (events.foldl (stepCursor L) toks).isEmpty
+
+/-- E4 (only for the token-level statement): every `Token` event carries the syntax kind of the
+token(s) it makes the sink consume — the parser's cursor and the sink's cursor are in step. -/
+def kindsAgree (L : Lang) : List Tok → List Event → Bool
+  | _, [] => true
+  | ts, e :: es =>
+    (match e with
+     | .token k n => ((dropTrivia L ts).take n).all fun t => L.toSyntax t.kind == k
+     | _ => true) && kindsAgree L (stepCursor L ts e) es
+
+/-- What the lexer's tokens look like as leaves: `(SyntaxKind::from(kind), text)`. -/
+def lexLeaves (L : Lang) (src : List Nat) (toks : List Tok) : List (Nat × List Nat) :=
+  toks.map fun t => (L.toSyntax t.kind, slice src t.lo t.hi)
 
 /-- No token carries the kind `Eof` (logos has no pattern for it). -/
 def noEof (L : Lang) (toks : List Tok) : Bool := toks.all fun t => t.kind != L.eof
